@@ -53,6 +53,7 @@ let handle (toks : string list) : (string * string * string) option =
         | ["R"; k; v] -> let p = pkind_of k in (Some p, aval_of true p v)
         | _ -> failwith "bad return spec") in
     let parsed = List.map (fun s -> match String.split_on_char ':' s with
+        | [k; "a"; v] when k = "fn" -> (KFn, "a", VInt (Z.add (z_of_int 20000) (z_of_string v)))   (* the tainted address of sandbox function fa_t<v> *)
         | [k; f; v] -> let p = pkind_of k in (p, f, aval_of false p v)
         | _ -> failwith "bad arg spec") args in
     let sg = List.map (fun (p, _, _) -> p) parsed in
